@@ -1,4 +1,4 @@
-import os, sys, json, subprocess, time, hashlib, shutil, tempfile, re, glob
+import os, sys, json, subprocess, time, hashlib, shutil, tempfile, re, glob, uuid
 
 VERIF = os.path.dirname(os.path.dirname(os.path.abspath(__file__)))
 BIN = os.path.join(VERIF, "bin")
@@ -66,9 +66,9 @@ class Run:
         return s.replace("{repo}", self.repo).replace("{verif}", VERIF).replace("{work}", self.work).replace("{gen}", self.expanded or "")
 
     # ---------------------------------------------------------------- govc
-    def run_govc(self, spec, extra=None):
+    def run_govc(self, spec, extra=None, jobs=None):
         govc = ensure_tool("govc", "govc")
-        out = os.path.join(self.work, "govc-%d.json" % len(os.listdir(self.work)))
+        out = os.path.join(self.work, "govc-%s.json" % uuid.uuid4().hex[:8])
         timeout = spec.get("timeout", {"quick": 10, "thorough": 60})[self.tier]
         cmd = [govc, "-dir", self.subst(spec["dir"]), "-pkgs", ",".join(spec["pkgs"]),
                "-contracts", ",".join(self.subst(c) for c in spec["contracts"]), "-out", out, "-timeout", str(timeout)]
@@ -84,7 +84,7 @@ class Run:
             rep = json.load(open(cpath))
             rep["cached"] = True
             return self.filter_prop(rep, spec.get("prop"))
-        rc, o = sh(cmd, cwd=self.subst(spec["dir"]), timeout=3600)
+        rc, o = sh(cmd + (["-j", str(jobs)] if jobs else []), cwd=self.subst(spec["dir"]), timeout=3600)
         if rc == 2 or not os.path.exists(out):
             raise EngineError("govc failed:\n" + o[-4000:])
         rep = json.load(open(out))
@@ -199,9 +199,17 @@ class Run:
         solver_s = 0.0
         by_solver = {}
         self.phases = []
-        for spec in cfg.get("govc", []):
+        specs = cfg.get("govc", [])
+        # the govc runs of a property are independent processes: up to three at a time, sharing the cores
+        def _one(spec):
             tp = time.time()
-            rep = self.run_govc(spec)
+            rep = self.run_govc(spec, jobs=(8 if len(specs) > 1 else None))
+            return spec, rep, time.time() - tp
+        from concurrent.futures import ThreadPoolExecutor
+        with ThreadPoolExecutor(max_workers=3) as ex:
+            results = list(ex.map(_one, specs))
+        for spec, rep, secs in results:
+            tp = time.time() - secs
             self.phases.append({"phase": "govc " + ",".join(spec.get("pkgs", [])) + " in " + os.path.basename(self.subst(spec.get("dir", ""))), "secs": round(time.time() - tp, 1), "cached": bool(rep.get("cached"))})
             cmds.append(rep["cmd"])
             funcs += rep.get("functions") or []
@@ -445,12 +453,16 @@ class Run:
                         return 1
                     self.say("replay does not reproduce on this tree")
                     return 0
+        if rp.get("input") is not None:
             for fn in cfg.get("replayers", []):
                 rc = fn(self, rp, path)
                 if rc is not None:
                     return rc
         # no input: re-run the check and report whether the named obligations still fail
-        self.say("replay file has no failing input (obligations: %s); re-running the check" % [o["name"] for o in rp.get("obligations", [])])
+        if rp.get("input") is not None:
+            self.say("this case is replayed by re-running the check that found it")
+        else:
+            self.say("replay file has no failing input (obligations: %s); re-running the check" % [o["name"] for o in rp.get("obligations", [])])
         return self.check()
 
     # ---------------------------------------------------------------- must-fail corpus
